@@ -115,7 +115,7 @@ contract(f"{B}::UserManager.disable_user", props=["C16"], bounded=3,
 contract(f"{B}::UserSessionManager._timeout_session", verify=False, note="ends one session (session maps, terminal table, notification message)",
          ensures=[], modifies=["self.local_session", "self.remote_sessions{*}", "UserSession.end_step"],
          emits=[("timeout", ["self", "session"])], exact_events=True, allocates=True)
-contract(f"{B}::UserSessionManager.pre_timestep", props=["C16"], bounded=2,
+contract(f"{B}::UserSessionManager.pre_timestep", props=["C16", "C01"], bounded=2,
          # sessions are filed by kind (UserSession.create / RemoteUserSession.create set the flag)
          requires=["forall(j, 0, len(self.remote_sessions), not dict_val(self.remote_sessions, j).local)",
                    "implies(self.local_session is not None, self.local_session.local)"],
